@@ -127,6 +127,15 @@ func (e *End) Read(b []byte) (int, error) {
 	}
 }
 
+// Break is the harness' way to take an end down from outside (the peer or the network went away):
+// like Close, but not counted as a Close call of the code under test.
+func (e *End) Break() {
+	e.p.mu.Lock()
+	e.closes--
+	e.p.mu.Unlock()
+	_ = e.Close()
+}
+
 func (e *End) Close() error {
 	p := e.p
 	p.mu.Lock()
